@@ -130,6 +130,13 @@ func (p *prover) structKey(v ssa.Value) string {
 		}
 	case *ssa.UnOp:
 		if x.Op == token.MUL {
+			// a captured variable that is assigned exactly once (a parameter of the enclosing function, a value
+			// computed before the closure is made): every load sees the same value
+			if fv, ok := x.X.(*ssa.FreeVar); ok {
+				if al, ok := freeVarBinding(fv).(*ssa.Alloc); ok && len(storesToDeep(al)) == 1 {
+					return "load(captured " + fv.Name() + ")"
+				}
+			}
 			if fa, ok := x.X.(*ssa.FieldAddr); ok {
 				_, sn, f, _ := fieldAddr(fa)
 				if !p.fieldStored(sn, f) {
